@@ -358,7 +358,8 @@ func (f *flowSUT) respond(txnID, seqID string, status int) (bool, string, error)
 				done = true
 			} else {
 				f.waits++
-				f.clk.Fire(w.ID) // the cool-down elapses (virtual)
+				f.clk.Set(f.clk.Now().Add(w.D)) // the cool-down elapses (virtual time moves by it)
+				f.clk.Fire(w.ID)
 			}
 		}
 		if done {
@@ -448,6 +449,7 @@ func (rn *runner) runHistory(idx int, c retryCfg, s sut, prefix string, evs []ev
 	models := map[int]*seqModel{}
 	pendingRetry := map[int]bool{}
 	attemptNo := map[int]int{}
+	retryAskedAt := map[int]time.Time{} // virtual instant at which the gateway asked for the sequence's latest retry (after the cool-down)
 	shape := map[string]int{}
 	for k := range evs {
 		ev := &evs[k]
@@ -500,7 +502,23 @@ func (rn *runner) runHistory(idx int, c retryCfg, s sut, prefix string, evs []ev
 				}
 			}
 		}
+		if c.Mode == "flows" {
+			// upstream latency of this response (virtual). A retried request cannot outlive the retry request timeout
+			// (100 s here): only then may the gateway have given the sequence up.
+			if ev.GapS > 0 {
+				rn.clk.Set(rn.clk.Now().Add(time.Duration(ev.GapS) * time.Second))
+				shape["latency"]++
+				v.Count("flows_responses_after_upstream_latency", 1)
+			}
+			if at, ok := retryAskedAt[ev.Seq]; ok && pendingRetry[ev.Seq] && rn.clk.Now().Sub(at) >= 100*time.Second {
+				m.mayForget()
+				v.Count("flows_retried_responses_later_than_the_request_timeout(may be forgotten)", 1)
+			}
+		}
 		retry, cond, err := s.respond(ev.TxnID, seqID, ev.Status)
+		if retry {
+			retryAskedAt[ev.Seq] = rn.clk.Now()
+		}
 		if err != nil {
 			if err.Error() == "watchdog" {
 				v.Inconclude(fmt.Sprintf("case %d: wall-clock watchdog while waiting for the retry processor", idx))
@@ -613,6 +631,9 @@ func genEvents(r *sim.Rand, c retryCfg) []event {
 		}
 		ev.Stray = r.Chance(1, 10)
 		ev.Abandon = r.Chance(1, 8)
+		if c.Mode == "flows" && r.Chance(1, 3) {
+			ev.GapS = sim.Pick(r, []int{1, 20, 45, 97})
+		}
 		if c.Mode == "policy" {
 			switch r.Intn(10) {
 			case 0:
